@@ -46,6 +46,11 @@ pub fn sched_point(label: &'static str) {
 pub use crate::utils::counter_verif_hooks::{VCounter, VCounterGuard, VCounterObserver};
 
 // ------------------------------------------------------------------------------------------
+// shrex PoolTracker
+
+pub use crate::p2p::pool_tracker_verif_hooks::{VPoolPoll, VPoolQuery, VPoolTracker};
+
+// ------------------------------------------------------------------------------------------
 // PeerTracker
 
 /// Plain-data view of one tracked peer.
